@@ -374,6 +374,125 @@ func runC03(c *an.Ctx) {
 	}
 	c.Expect("C03.delims", "references to the default delimiter constants", nRef, 4)
 	c.OK("C03.delims", "defaults-only-in-constructor", p.Jet.Syntax[0].Pos(), "the default delimiter constants are referenced only by the lexer constructor (%d references)", nRef)
+	c03configured(c)
+}
+
+// c03configured: every delimiter configured on the Set reaches the lexer before it runs.  In (*Set).parse,
+// on every path to lexer.run(), each of Set.leftDelim/rightDelim/leftComment/rightComment was either
+// handed to its lexer setter or is known to be empty on that path; and each setter stores its i-th
+// parameter into the corresponding lexer field unless the parameter is empty.
+func c03configured(c *an.Ctx) {
+	p := c.P
+	f := c.Fn("C03.delims", "(*Set).parse")
+	if f == nil {
+		return
+	}
+	info := f.Info()
+	setters := map[string][]string{
+		"(*jet.lexer).setDelimiters":        {"lexer.leftDelim", "lexer.rightDelim"},
+		"(*jet.lexer).setCommentDelimiters": {"lexer.leftComment", "lexer.rightComment"},
+	}
+	setFields := []string{"Set.leftDelim", "Set.rightDelim", "Set.leftComment", "Set.rightComment"}
+	want := map[string]string{"Set.leftDelim": "lexer.leftDelim", "Set.rightDelim": "lexer.rightDelim", "Set.leftComment": "lexer.leftComment", "Set.rightComment": "lexer.rightComment"}
+	fieldExpr := map[string]ast.Expr{}
+	an.InspectOwn(f, func(n ast.Node) bool {
+		if sel, ok := n.(*ast.SelectorExpr); ok {
+			if k := p.FieldKey(info, sel); want[k] != "" && fieldExpr[k] == nil {
+				fieldExpr[k] = sel
+			}
+		}
+		return true
+	})
+	nRun := 0
+	bad := map[string]token.Pos{}
+	var badFacts []string
+	hooks := an.Hooks{
+		Call: func(x *an.Explorer, call *ast.CallExpr, st *an.State) {
+			name := an.CalleeName(info, call)
+			if targets, ok := setters[name]; ok {
+				for i, a := range call.Args {
+					if i < len(targets) {
+						if k := p.FieldKey(info, a); want[k] == targets[i] {
+							st.Set("cfg:"+k, "1")
+						}
+					}
+				}
+			}
+			if name == "(*jet.lexer).run" {
+				nRun++
+				for _, k := range setFields {
+					if st.Get("cfg:"+k) != "" {
+						continue
+					}
+					if e := fieldExpr[k]; e != nil {
+						probe := &ast.BinaryExpr{X: e, Op: token.EQL, Y: &ast.BasicLit{Kind: token.STRING, Value: `""`}}
+						if v, known := x.Truth(probe, st); known && v {
+							continue
+						}
+					}
+					if _, dup := bad[k]; !dup {
+						bad[k] = call.Pos()
+						badFacts = an.Facts(st)
+					}
+				}
+			}
+		},
+	}
+	x := p.NewExplorer(f, hooks)
+	x.Run(nil)
+	c.States += x.Visited
+	c.FnsAnalysed[f.Name] = true
+	if x.Undecided != "" {
+		c.Undecided("C03.delims", "(*Set).parse/configured", f.Pos(), "%s", x.Undecided)
+		return
+	}
+	if nRun == 0 {
+		c.Anchor("C03.delims", "call of lexer.run in (*Set).parse")
+		return
+	}
+	for _, k := range setFields {
+		if pos, isBad := bad[k]; isBad {
+			c.Bad("C03.delims", "(*Set).parse/configured:"+k, pos, badFacts, "the lexer can run without %s having been handed to its setter although it may be non-empty: a Set configured with that delimiter lexes with the default one", k)
+		} else {
+			c.OK("C03.delims", "(*Set).parse/configured:"+k, f.Pos(), "%s reaches the lexer (or is empty) on every path to lexer.run()", k)
+		}
+	}
+	// the setters
+	for name, targets := range setters {
+		g := c.Fn("C03.delims", strings.Replace(name, "jet.", "", 1))
+		if g == nil {
+			continue
+		}
+		ginfo := g.Info()
+		hk := an.Hooks{
+			PreAssign: func(x *an.Explorer, lhs, rhs ast.Expr, stmt ast.Node, st *an.State) {
+				if rhs == nil {
+					return
+				}
+				if id, ok := an.Unparen(rhs).(*ast.Ident); ok {
+					if i, isParam := an.IsParam(g, an.ObjOf(ginfo, id)); isParam && i >= 0 && i < len(targets) && p.FieldKey(ginfo, lhs) == targets[i] {
+						st.Set("stored:"+targets[i], "1")
+					}
+				}
+			},
+		}
+		gx := p.NewExplorer(g, hk)
+		gx.Run(nil)
+		c.States += gx.Visited
+		for i, target := range targets {
+			ok := len(gx.Exits) > 0
+			pv := an.Param(g, i)
+			for _, ex := range gx.Exits {
+				if ex.Kind != an.ExitReturn || pv == nil {
+					continue
+				}
+				if ex.State.Get("stored:"+target) == "" && !an.FactIs(ex.State, pv.Name()+` == ""`, true) {
+					ok = false
+				}
+			}
+			c.Check(ok, "C03.delims", g.Name+"/"+target, g.Pos(), "a non-empty parameter is stored into "+target, g.Name+" can return without storing its non-empty parameter "+fmt.Sprint(i)+" into "+target)
+		}
+	}
 }
 
 func caseClauseOf(fn *an.Fn, name string) *ast.CaseClause { return caseClause(fn, name) }
